@@ -50,7 +50,8 @@ func (c04) RaceCases(tier string) int {
 func (c04) Floor(tier string) int { return 1500 }
 
 // (keys that look like patterns are keys: the entries of b go to the entries of a with the SAME key)
-var c04Keys = []string{"a", "b", "c", "d", "x", "y", "k", "", "a*", "*", "?", "ab"}
+// (and strings that look like numbers written another way: string keys all the same)
+var c04Keys = []string{"a", "b", "c", "d", "x", "y", "k", "", "a*", "*", "?", "ab", "007", "0x1F", "1_000", "+5", "7"}
 
 func c04Map(r *rand.Rand, depth int) *ref.V {
 	p := gen.Default()
